@@ -8,16 +8,23 @@ any depth,
 * both are leaf / leaf-list nodes — every accepted cell of the 4 × 4 table, except that in the cell `none` + `replace` (a leaf
   whose default flag was changed by the first diff gets another value in the second one) the new value must not carry the
   default flag (`merge_apply_dfltvalue_fails`: not reachable from validated data); or
-* both are container / list-instance nodes with the operation `none` (the instance exists in all three trees), the key copies of
-  the target node belong to schema nodes before the children of the source node (schema order: true of every computed diff),
-  and their children meet in the same way.
-Excluded: an instance created or deleted as a whole subtree by one diff and touched again (below its root) by the other one —
-there the operations of the children are INHERITED and `lyd_diff_merge_r` makes them explicit first; this part of the
-recursion is OPEN (evaluated on the implementation only).
+* both are container / list-instance nodes with the operations `none` + `none` (`meetOps`: the instance exists in all three
+  trees), the key copies of the target node belong to schema nodes before the children of the source node (schema order: true
+  of every computed diff), and their children meet in the same way.
+Excluded (OPEN, evaluated on the implementation only): an inner node created or deleted as a whole subtree by one diff that
+meets a node of the other diff — `create` + `none` / `create` + `delete` (created, then changed inside / deleted again),
+`none` + `delete` (changed inside, then deleted), `delete` + `create` ("delete-then-recreate", finding F18's cell when the
+descendants differ): there the operations of the descendants are INHERITED and `lyd_diff_merge_r` makes them explicit first.
+The leaf cells are prepared for it (`K13.term_cell` takes a source node that is a copy inside a deleted subtree).
 Core Lean only (the driver evaluates the predicate for every generated triple).
 -/
 namespace LyModel.Diff
 open LyModel LyModel.Tree
+
+/-- the operations of two inner nodes that may meet: `none` + `none` (the instance is in all three trees) -/
+def meetOps : Option Op → Option Op → Bool
+  | some .none, some .none => true
+  | _, _ => false
 
 mutual
 /-- the target node `t` (inherited operation `cur`) and the source node that meets it (inherited operation `sin`) -/
@@ -25,7 +32,7 @@ def safeP (S : Schema) (cur sin : Option Op) (t : DNode) : DNode → Bool
   | .term s f m v =>
     t.isTerm && !(effOp t cur == some .none && effOp (.term s f m v) sin == some .replace && f.dflt)
   | .inner s f m ks =>
-    !t.isTerm && effOp t cur == some .none && effOp (.inner s f m ks) sin == some .none &&
+    !t.isTerm && meetOps (effOp t cur) (effOp (.inner s f m ks) sin) &&
       (keysOf S t.kids).all (fun k => (noKeys S ks).all fun c => decide (k.sid < c.sid)) &&
       safeK S (childInhOf t cur) (childInhOf (.inner s f m ks) sin) (noKeys S t.kids) ks
 /-- every node of the source sibling list `cs` against every node of the target sibling list `T` it meets -/
